@@ -77,14 +77,21 @@ func TestC20Variables(t *testing.T) {
 	col := evid.New("C20", "variables", "")
 	rapidCheck(t, col, func(rt *rapid.T) {
 		v := gen.Value(rt, "val", gen.ValueOpts{Depth: 2, Regexp: true, NoKeyTies: true})
-		name := rapid.SampledFrom([]string{"v", "Count", "_x", "name9", "狐"}).Draw(rt, "name")
+		name := rapid.SampledFrom([]string{"v", "Count", "_x", "name9", "狐", "$id", "$ref", "v", "Count"}).Draw(rt, "name")
+		// how the script spells the name: as it is, or with the legacy "$" in
+		// front (which is not part of the name - so a name that does begin with
+		// "$" is spelled with two)
+		spelled := name
+		if strings.HasPrefix(name, "$") || rapid.Bool().Draw(rt, "legacydollar") {
+			spelled = "$" + name
+		}
 		after := rapid.Bool().Draw(rt, "afterprepare")
 		noOpt := rapid.Bool().Draw(rt, "noopt")
 		assigned := gen.Value(rt, "assigned", gen.ValueOpts{Depth: 1, NoKeyTies: true})
 		if !gen.LiteralOK(assigned) {
 			assigned = lang.Int(3)
 		}
-		script := "out = " + name + "; mine = " + lang.ExprText(lang.ValueExpr(assigned)) + "; return " + name + ";"
+		script := "out = " + spelled + "; mine = " + lang.ExprText(lang.ValueExpr(assigned)) + "; return " + spelled + ";"
 		payload := map[string]interface{}{"prop": "C20", "kind": "variables", "script": script, "name": name, "value": v.Describe(), "set_after_prepare": after, "noopt": noOpt}
 		r := eng.NewRunner(script)
 		if !after {
@@ -104,7 +111,7 @@ func TestC20Variables(t *testing.T) {
 		if n, _ := eng.FromObject(r.E.GetVariable("never_assigned")); n.K != lang.KNull {
 			violation(rt, "C20", payload, "GetVariable of a never-assigned name: expected null, got %s", n.Describe())
 		}
-		res := r.Execute(map[string]interface{}{name: "a field that the variable must shadow"})
+		res := r.Execute(map[string]interface{}{name: "a field that the variable must shadow", strings.TrimPrefix(name, "$"): "a member of a similar name"})
 		if res.Panic != nil || res.Err != nil {
 			violation(rt, "C20", payload, "run failed: %v %v", res.Panic, res.Err)
 		}
